@@ -38,6 +38,10 @@ static mut CHILD_NEW: u64 = 0;
 static mut PARENT_STEPS: u32 = 0;
 static mut PARENT_OLD: u64 = 0;
 static mut CHILD_LOADS_AFTER_DEC: u32 = 0; // loads of the child's word after my decrement (only a callee below the depth cap does that)
+static mut PARENT_ENV_OFF: bool = false;   // harness switch: no interference on the parent's word
+static mut CHILD_STEP_EPOCH: usize = 0;     // the clock when the child's word was updated
+static mut LONG_CALLEE_ADVANCE: usize = 0; // how far the clock moves while a recursive call runs (it disposes an
+                                           // arbitrarily long subtree and re-announces this thread's epoch every 128 nodes)
 static mut PARENT_LOADS: u32 = 0;
 static mut PARENT_FIRST: u64 = 0;      // the parent's word as first read by the call (its decision is taken on this stamp)
 
@@ -50,7 +54,7 @@ fn cell(a: &AtomicU64) -> *mut u64 { a as *const AtomicU64 as *mut u64 }
 ///         DESTRUCTED — upgrades may re-increment it.
 unsafe fn env(a: &AtomicU64) {
     let addr = cell(a) as usize;
-    if BUDGET == 0 || !(addr == CHILD_WORD || addr == PARENT_WORD) || !kani::any::<bool>() { return; }
+    if BUDGET == 0 || !(addr == CHILD_WORD || (addr == PARENT_WORD && !PARENT_ENV_OFF)) || !kani::any::<bool>() { return; }
     BUDGET -= 1;
     let w: u64 = kani::any();
     let s = State::from_raw(w);
@@ -69,7 +73,7 @@ unsafe fn env(a: &AtomicU64) {
 unsafe fn mine(a: &AtomicU64, old: u64, new: u64) {
     let addr = cell(a) as usize;
     if old == new { return; }
-    if addr == CHILD_WORD { CHILD_STEPS += 1; CHILD_OLD = old; CHILD_NEW = new; }
+    if addr == CHILD_WORD { CHILD_STEPS += 1; CHILD_OLD = old; CHILD_NEW = new; CHILD_STEP_EPOCH = EPOCH; }
     if addr == PARENT_WORD { PARENT_STEPS += 1; PARENT_OLD = old; }
 }
 fn x_load(a: &AtomicU64, _o: Ordering) -> u64 {
@@ -93,6 +97,7 @@ fn s_vec_new<T>() -> Vec<T> { Vec::with_capacity(2) }   // Kani models Vec::new(
 unsafe fn s_defer_unchecked<F, R>(_g: &Guard, f: F) where F: FnOnce() -> R {
     assert!(!IN_DEFER, "C15.defer.not_nested");
     IN_DEFER = true; let _ = f(); IN_DEFER = false;
+    EPOCH += LONG_CALLEE_ADVANCE;
 }
 unsafe fn rec_try_destruct<T: RcObject>(ptr: *mut RcInner<T>) {
     assert!(IN_DEFER, "C02.cascade.destruct_of_recent_node_only_through_ebr_deferral");
@@ -331,6 +336,85 @@ fn dispose_null_edge_then_child() {
     assert!(DEC_S == 0, "C06.cascade.no_deferred_decrement_for_cascaded_edges");
     kani::cover!(cn.strong() == 0, "cover.tree.child_zero");
     kani::cover!(cn.strong() > 0, "cover.tree.child_shared");
+}}
+
+dispose_harness! {
+/// (a''') a node with two edges.  Disposing the FIRST edge's subtree takes arbitrarily long: the
+/// disposing thread re-announces its epoch every 128 nodes, so the clock moves by ANY amount while
+/// this frame is alive, and meanwhile another thread - inside a critical section that is still
+/// active - takes a Snapshot of the second child and unlinks it, leaving a fresh stamp.  The second
+/// edge is judged against the clock as it is when its count is updated, not against the epoch
+/// read on entry (defect F11: a stale window misreads the fresh stamp as the oldest one).
+#[kani::unwind(7)]
+fn dispose_second_edge_after_long_first_edge() {
+    EPOCH = kani::any();
+    kani::assume(EPOCH < (1usize << 61));
+    let c0 = EPOCH;
+    LONG_CALLEE_ADVANCE = kani::any(); kani::assume(LONG_CALLEE_ADVANCE < (1usize << 61));
+    // first child: only the parent's link owns it, old stamps: it is cascaded (the recursive call)
+    let child1 = RcInner::alloc(C2 { first: AtomicRc::null(), next: AtomicRc::null() }, 1);
+    let ce1: usize = kani::any(); kani::assume(stamp_ok(ce1, c0));
+    *cell(&(*child1).state) = State::from_raw(WEAK_COUNT).add_strong(1).with_epoch(ce1).as_raw();
+    let le1: usize = kani::any(); kani::assume(stamp_ok(le1, c0));
+    // second child: shared (count >= 1); the environment re-stamps it when its word is first read
+    let child2 = RcInner::alloc(C2 { first: AtomicRc::null(), next: AtomicRc::null() }, 1);
+    let cs2: u32 = kani::any(); kani::assume(cs2 >= 1 && cs2 < (1 << 28));
+    let ce2: usize = kani::any(); kani::assume(stamp_ok(ce2, c0));
+    *cell(&(*child2).state) = State::from_raw(WEAK_COUNT).add_strong(cs2).with_epoch(ce2).as_raw();
+    let le2: usize = kani::any(); kani::assume(stamp_ok(le2, c0));
+    let parent = RcInner::alloc(C2 { first: AtomicRc::from(Rc::from_raw(Raw::from(child1).with_high_tag(le1))),
+                                     next: AtomicRc::from(Rc::from_raw(Raw::from(child2).with_high_tag(le2))) }, 1);
+    let pe: usize = kani::any(); kani::assume(stamp_ok(pe, c0) && old_enough(pe as u32, c0));   // the immediate case
+    *cell(&(*parent).state) = State::from_raw(0).add_weak(1).with_epoch(pe).as_raw();
+    PARENT = parent as usize; PARENT_WORD = cell(&(*parent).state) as usize; PARENT_ENV_OFF = true; CHILD_WORD = cell(&(*child2).state) as usize;
+    BUDGET = 1;
+    let counter = Cell::new(1usize);
+    let guard = s_cs();
+    dispose_general_node(parent, 1023, &counter, &guard);
+    let c1 = CHILD_STEP_EPOCH;
+    assert!(POPS == 1 && DROPS == 1, "C06.cascade.tree_node_destructed");
+    assert!(CHILD_STEPS == 1 && c1 == c0 + (State::from_raw(*cell(&(*child1).state)).strong() == 0) as usize * LONG_CALLEE_ADVANCE, "C06.cascade.second_edge_cascaded_after_the_first");
+    let (co, cn) = (State::from_raw(CHILD_OLD), State::from_raw(CHILD_NEW));
+    assert!(cn.strong() + 1 == co.strong(), "C06.cascade.second_edge_child_loses_exactly_the_link_share");
+    // the stamp left on the child: the newest of (parent, link, child) IN THE WINDOW OF THE CLOCK AS IT IS NOW
+    assert!(cn.epoch() == newest(c1, pe as u32, le2 as u32, co.epoch()), "C02.cascade.second_edge_stamp_judged_against_the_current_clock");
+    // in particular a stamp written in the current epoch (a reader's critical section is still active) survives
+    // (an old parent/link stamp may alias to a NEWER value of the 4-bit window - that errs to "too recent", C12 - so the
+    //  merged stamp need not be the child's own; what matters is that it is still classified recent)
+    if co.epoch() as usize == c1 % (1usize << EPOCH_WIDTH) { assert!(!old_enough(cn.epoch(), c1), "C02.cascade.fresh_stamp_on_a_later_edge_still_counts_as_recent_after_a_long_disposal"); }
+    kani::cover!(LONG_CALLEE_ADVANCE >= 3 && co.epoch() as usize == c1 % (1usize << EPOCH_WIDTH) && BUDGET == 0, "cover.tree.fresh_stamp_after_long_first_edge");
+    kani::cover!(LONG_CALLEE_ADVANCE == 0, "cover.tree.short_first_edge");
+}}
+
+dispose_harness! {
+/// (c) the periodic re-announcement of long disposals (every 128 disposed nodes, C14 "long
+/// disposals"): it must leave the announced epoch alone while a guard other than the collector's own
+/// (the one `dispose` created, plus the one whose drop is running the collection) is alive on this
+/// thread - a destructor may have created one and kept it (C16).
+#[kani::unwind(7)]
+fn dispose_periodic_reannouncement() {
+    EPOCH = 1000;
+    let gc: usize = kani::any(); kani::assume(gc >= 1 && gc <= 4);
+    let collecting: bool = kani::any();
+    kani::assume(gc >= 1 + collecting as usize);                 // dispose's own guard (+ the collection's)
+    let global: usize = kani::any(); kani::assume(global & 1 == 0);
+    let behind: bool = kani::any();
+    let announced = (if behind { global.wrapping_sub(2) } else { global }) | 1;
+    let guard = Guard::verif_cut_guard(gc, collecting, global, announced);
+    let n = RcInner::alloc(Leaf, 1);
+    *cell(&(*n).state) = State::from_raw(0).add_weak(1).with_destructed(true).with_epoch(kani::any::<usize>() % 16).as_raw();
+    PARENT = n as usize; PARENT_WORD = cell(&(*n).state) as usize; BUDGET = 0;
+    let k: usize = kani::any(); kani::assume(k < 1000);
+    let at_period: bool = kani::any();
+    let counter = Cell::new(k * 128 + if at_period { 0 } else { 1 + kani::any::<usize>() % 127 });
+    dispose_general_node(n, 0, &counter, &guard);
+    let foreign = gc > 1 + collecting as usize;
+    if foreign { assert!(guard.verif_cut_announced() == announced, "C16.dispose.periodic_re_announcement_keeps_the_epoch_of_a_foreign_guard"); }
+    if !at_period { assert!(guard.verif_cut_announced() == announced, "C14.dispose.re_announces_only_every_128_nodes"); }
+    assert!(guard.verif_cut_announced() == announced || guard.verif_cut_announced() == (global | 1), "C14.dispose.re_announces_the_current_epoch_only");
+    assert!(POPS == 1 && DROPS == 1, "C04.dispose.root_destructed");
+    kani::cover!(!foreign && at_period && behind && guard.verif_cut_announced() == (global | 1), "cover.dispose.re_announced");
+    kani::cover!(foreign && at_period && behind, "cover.dispose.foreign_guard_at_period");
 }}
 
 dispose_harness! {
